@@ -9,10 +9,11 @@ Local Open Scope list_scope.
 Local Open Scope nat_scope.
 
 (* the heading state in force at page-relative row j: the boundaries up to and including j have been applied *)
-Fixpoint state_at (bounds : list (nat * list (str * val))) (last : list (str * val)) (j : nat) : list (str * val) :=
+Fixpoint state_at (keys : list str) (bounds : list (nat * list (str * val))) (last : list (str * val)) (j : nat)
+  : list (str * val) :=
   match bounds with
   | [] => last
-  | (rel, gv) :: r => if Nat.leb rel j then state_at r (update_vals last gv) j else last
+  | (rel, gv) :: r => if Nat.leb rel j then state_at keys r (refresh_vals keys last gv) j else last
   end.
 
 Definition agrees (cols keys : list str) (last : list (str * val)) (row : list val) : Prop :=
@@ -108,7 +109,7 @@ Proof.
   rewrite <- E in *. apply Ha; assumption.
 Qed.
 
-Lemma state_at_later bounds last j : Forall (fun b => j < fst b) bounds -> state_at bounds last j = last.
+Lemma state_at_later keys bounds last j : Forall (fun b => j < fst b) bounds -> state_at keys bounds last j = last.
 Proof.
   destruct bounds as [|[rel gv] r]; [reflexivity|]. intro H. inversion H; subst. cbn [state_at fst] in *.
   replace (Nat.leb rel j) with false by (symmetry; apply Nat.leb_gt; assumption). reflexivity.
@@ -117,21 +118,21 @@ Qed.
 (* the invariant, for every row after a given previous row *)
 Theorem state_invariant cols keys rows : forall prev last rel j row,
   agrees cols keys last prev -> nth_error rows j = Some row ->
-  agrees cols keys (state_at (boundaries_from cols keys prev rows rel) last (rel + j)) row.
+  agrees cols keys (state_at keys (boundaries_from cols keys prev rows rel) last (rel + j)) row.
 Proof.
   induction rows as [|r rest IH]; intros prev last rel j row Ha Hn; [destruct j; discriminate|].
   cbn [boundaries_from].
-  assert (Hlater : forall l, state_at (boundaries_from cols keys r rest (S rel)) l rel = l).
+  assert (Hlater : forall l, state_at keys (boundaries_from cols keys r rest (S rel)) l rel = l).
   { intro l. apply state_at_later. eapply Forall_impl; [|apply boundaries_from_range]. intros b Hb. cbn in Hb. lia. }
   destruct j as [|j'].
   - cbn in Hn. inversion Hn; subst row. rewrite Nat.add_0_r.
     destruct (raw_differs cols keys prev r) eqn:Ed; cbn [app state_at].
-    + rewrite Nat.leb_refl, Hlater. apply agrees_after_update.
+    + rewrite Nat.leb_refl, Hlater. unfold refresh_vals. apply agrees_after_update.
     + rewrite Hlater. eapply agrees_same_keys; eassumption.
   - cbn in Hn. replace (rel + S j') with (S rel + j') by lia.
     destruct (raw_differs cols keys prev r) eqn:Ed; cbn [app state_at].
     + replace (Nat.leb rel (S rel + j')) with true by (symmetry; apply Nat.leb_le; lia).
-      apply IH; [apply agrees_after_update|exact Hn].
+      apply IH; [unfold refresh_vals; apply agrees_after_update|exact Hn].
     + apply IH; [eapply agrees_same_keys; eassumption|exact Hn].
 Qed.
 
@@ -154,7 +155,7 @@ Qed.
 Theorem page_state_invariant f keys start len j row :
   nth_error (firstn len (skipn start (f_rows f))) j = Some row ->
   match firstn len (skipn start (f_rows f)) with
-  | r0 :: _ => agrees (f_cols f) keys (state_at (boundaries f keys start len) (group_values (f_cols f) keys r0) j) row
+  | r0 :: _ => agrees (f_cols f) keys (state_at keys (boundaries f keys start len) (group_values (f_cols f) keys r0) j) row
   | [] => True
   end.
 Proof.
